@@ -14,7 +14,8 @@ available (`avail`).  Buffers are the list of bytes written so far; capacities: 
 rd_header[14]; the payload buffer `data` belongs to the CALLER (coap_read_session's stack array) and is
 a fresh local of every call — only `rxData` (ws->rx_data) survives between calls.
 Oracles (not modelled): SHA-1/base64 of the accept hash (`accept` = the expected header value),
-base64-decoding of the key (`keyOk`), coap_ws_close's draining of the socket after the close frame was sent.
+base64-decoding of the key (`keyOk`), the Close frame coap_ws_close writes.  coap_ws_close's draining of the socket
+is modelled at the end of this file (`closeDrain`, `drainRounds`; entered by the reader itself: `refusalPoint`, `selfClose`).
 C strings: `lfIdx` = strchr(http_hdr, LF) stops at a NUL byte, so a line handed to the per-line checks never
 contains one.
 -/
@@ -358,8 +359,54 @@ def closeDrain (mode : Mode) : (count : Nat) → St → Bytes → Bool × St × 
           let r := closeDrain mode c st' av'
           (r.1, r.2.1, r.2.2.1, r.2.2.2 + 1)
 
+/-- the number of rounds (select() calls) of the same loop: `count--` ends every round, the round in which the Close
+frame is seen is the last one -/
+def drainRounds (mode : Mode) : (count : Nat) → St → Bytes → Nat
+  | 0, _, _ => 0
+  | c + 1, st, av =>
+    if av.length = 0 then drainRounds mode c st av + 1
+    else
+      match readFrame mode drainBuf (av.length + fsCap + 2) st av with
+      | (ret, st', av') => if recvCloseOf mode ret st' then 1 else drainRounds mode c st' av' + 1
+
 /-- `coap_ws_close` on an open session whose handshake is done (`up`), called by the application while `av` is
 available on the socket: the Close frame is written, `sent_close` set, then the drain loop -/
 def wsClose (mode : Mode) (st : St) (av : Bytes) : Bool × St × Bytes × Nat := closeDrain mode drainCount st av
+
+/-! ### the reader closing the session by itself: `coap_ws_close` called from inside `coap_ws_read` -/
+
+/-- the `coap_ws_read` calls the event loop makes on one chunk (the `do … while (more)` loop of `coap_read_session`
+and the calls for the next read events, flattened: each call starts from the state and the pending bytes the previous
+one left, with a fresh 1472-byte buffer) up to the first call that closes the session by itself — 1002 / 1003 / 1009
+refusal or Close frame received: the reader state and the pending bytes at that point, i.e. what `coap_ws_close` is
+entered with.  `none`: no such call (the chunk is used up, the handshake fails, the loop stalls). -/
+def refusalPoint (mode : Mode) (accept : Bytes) : (fuel : Nat) → (idle : Nat) → St → Bytes → Option (St × Bytes)
+  | 0, _, _, _ => none
+  | fuel + 1, idle, st, av =>
+    match wsRead mode accept rxBuf st av with
+    | (.closed, st', av') => some (st', av')
+    | (.pkt _, st', av') =>
+      if st'.rdHeader.length > 0 ∨ av'.length > 0 then refusalPoint mode accept fuel 0 st' av' else none
+    | (.zero, st', av') =>
+      if av'.length = 0 then none
+      else if av'.length = av.length then
+        (if idle + 1 > 4 then none else refusalPoint mode accept fuel (idle + 1) st' av')
+      else refusalPoint mode accept fuel 0 st' av'
+    | _ => none
+
+/-- one chunk on which the reader closes the session by itself: `coap_ws_close` runs inside that `coap_ws_read` call with
+`recv_close` already set for a Close frame (no drain: 0 calls) and the drain loop otherwise.  Returns (recv_close, state,
+bytes of the chunk never read, `coap_ws_read` calls of the drain). -/
+def selfClose (mode : Mode) (accept : Bytes) (st : St) (chunk : Bytes) : Option (Bool × St × Bytes × Nat) :=
+  match refusalPoint mode accept (6 * (chunk.length + 1)) 0 st chunk with
+  | none => none
+  | some (st', av') =>
+    if recvCloseOf mode .closed st' then some (true, st', av', 0) else some (closeDrain mode drainCount st' av')
+
+/-- select() rounds of the reader's own `coap_ws_close` (none when `recv_close` is already set) -/
+def selfCloseRounds (mode : Mode) (accept : Bytes) (st : St) (chunk : Bytes) : Nat :=
+  match refusalPoint mode accept (6 * (chunk.length + 1)) 0 st chunk with
+  | none => 0
+  | some (st', av') => if recvCloseOf mode .closed st' then 0 else drainRounds mode drainCount st' av'
 
 end Coap.M.Ws
